@@ -304,6 +304,29 @@ props["C17"]["manifest"] = {
 }
 
 
+props["C15"] = {
+    "harness": "c15",
+    "level": "proof",
+    "model_is_oracle": True,
+    "nontrivial": r"^c15 eff [01]+ \S+ .*\b[ocwd]\d",
+    "timeout": {"quick": 900, "thorough": 7200},
+    "rule": "each case is a HISTORY over a scratch directory with five interdependent files (root.zy importing a.zy / b.zy / c.zy in nine variants - plain, self-contained Builtin executable exiting with a.zy + b.zy, executable over the whole surface prelude, non-exhaustive match, local type error, syntax error, no imports -; a.zy with its optional companion a.zyi; b.zy importing a.zy (diamond), root.zy (cycle) or c.zy; c.zy importing b.zy; every file also absent, a syntax error, or a value of the wrong type): an initial disk state plus operations set_overlay, clear_overlay, write + refresh_disk, delete + refresh_disk, write / delete + clear_overlay, bare refresh_disk and queries (graph, analyze, reports, coverage, per-node facts = annotation_of_def / type_definition_of_def / annotation_of_term / normalized_type printed against materialize_arena, executable_program + run) on any of four roots, optionally through a snapshot(). Streams: ~3,900 scripted risky shapes (file looked up while absent then created / overlaid / removed, overlay before first lookup, overlay identical to disk, A -> B -> A by overlay and on disk, disk change under an overlay, disk change announced by clear_overlay only, imported file deleted and restored, cycle introduced and removed, two roots alternating around unrelated edits so that the lru = 1 check memo is evicted between analyze and executable_program); all histories of 3 (quick) / 4 (thorough) edits over two 10-11 operation alphabets from five initial states with a query after every edit; random histories of 6-24 and 25-60 operations concentrating on two roots, with reverts to earlier contents; histories with the prelude root; histories whose queries go through snapshots. ORACLE: at every query, and for all 24 (root, query) pairs at the end of every history, the long-lived session's rendered answer must equal the answer of a CompilerSession::default() that was given exactly the current overlays over the same directory (graph shape with ordered import targets and spans, signature edges, provider order, load error text; verdict, every rendered diagnostic with its span, source texts, fact listings with source locations, exit code and output); arena identities are masked. A difference is shrunk by deleting operations and reported with the replayable history. MODEL: after every history the effective text of every file, as far as graph() shows it, is compared with the Lean model of the input side (`c15 eff`). Non-trivial = distinct histories containing at least one edit.",
+    "explanation": "Kernel-checked: on the input side (files map created lazily from the disk at first lookup, overlays, refresh_disk, clear_overlay re-reading the disk) the long-lived session shows for every path exactly what a fresh session over the final disk and the same overlays shows, after EVERY history in which each disk change is followed by refresh_disk or clear_overlay of that path (induction over the history with the invariant that every known input's disk text is current; lookups are proved invisible); and a revisioned memo table with recorded dependencies, verified-at stamps and eviction at any time answers every query with the from-scratch result after ANY history, provided the recorded dependencies are all the computation reads (the hypothesis whose failure is exactly a missed invalidation; a Demo example shows the stale answer when it fails). The salsa storage and the checker are not modelled: that every query of query.rs records what it reads is decided by the differential oracle against a fresh session on every history.",
+    "trusted_base": [KERNEL, AXIOMS, HARNESS,
+                     "modelled, not verified: CompilerSession::{source_input, set_overlay, refresh_disk, clear_overlay} and source_text (lang/session/src/source/query.rs) are mirrored by ZV/Model/Session.lean and compared on every history through the texts graph() reports",
+                     "NOT modelled: the salsa runtime (revisions, dependency recording, LRU), the tracked queries of session/query.rs and statics/query.rs, the checker; ZV/Model/Memo.lean is a generic memo table whose hypothesis ReadsRecorded stands for 'every read of a query goes through a tracked input' - only the differential oracle can show a query violating it",
+                     "the fresh session is the reference: a defect that a fresh session shares (a wrong answer that does not depend on history) is invisible here and belongs to the other properties",
+                     "the harness's fresh-oracle cache (answers keyed by effective contents + which files exist on disk; one hit in eight recomputed and compared; every reported difference is re-run without the cache)"],
+    "assumptions": ["every disk change is announced to the session by refresh_disk or clear_overlay of that path before the next operation (the well-formedness predicate WF of the model; the harness generates only such histories)",
+                    "histories are sequential: a snapshot is dropped before the next edit (salsa blocks a write while a snapshot is alive)"],
+}
+props["C15"]["manifest"] = {
+    "text": "Differential check of a long-lived CompilerSession against a fresh one: scripted, small-exhaustive and random edit histories (overlays, disk writes / deletes with refresh, clears, snapshots) over five interdependent files with valid, ill-typed, syntactically broken, cyclic and missing variants; after every query and for every (root, query) pair at the end of each history the rendered graph, verdict, diagnostics with locations, per-node facts and run outcome must equal those of a fresh session given the same overlays; differences are shrunk to a minimal replayable history. Lean: the input side (lazy creation, overlay, refresh) is modelled and proved equal to a fresh session after every well-formed history, and a revisioned memo table with recorded dependencies and arbitrary eviction is proved to answer every query from scratch; the model's effective texts are compared with the real session after every history.",
+    "note": "Proof covers the input side and an abstract memo table; that the real tracked queries record every read is decided by the differential search, not by a theorem. Findings on the pinned tree: (1) the identity of a path that does not exist ends in a separator, so refresh_disk of a file that was first looked up while absent (every companion .zyi is) fails with ENOTDIR once the file exists and the session never sees it; (2) snapshot() deep-copies the path -> input map, so inputs first created inside a snapshot are unknown to the session, and a later overlay or refresh of such a file creates a second input that memoised graphs do not depend on.",
+    "technique": "history-based differential testing against a fresh session (scripted + bounded-exhaustive + random, with shrinking) + Lean theorems on a model of the input side and on a revisioned memo table + model/implementation correspondence of effective texts",
+}
+
+
 props["C16"] = {
     "harness": "c16",
     "level": "other",
